@@ -250,6 +250,50 @@ def check_stage(chk, c, f, xp, stage, data, drv, tol, sig, case):
                      {**sig, "clause": "normalised"})
 
 
+def check_through_aspire(chk, quick):
+    """the proposal as `Aspire` itself builds it (`init_flow`): an analysis that declares a PERIODIC parameter with finite bounds, fitted on
+    data sitting on the seam of the period (a phase posterior at 0 == 2 pi), next to an ordinary bounded parameter - the density returned with
+    the draws is `log_prob` at the draws, and the draws respect the bounds"""
+    import torch
+
+    from aspire import Aspire
+    from aspire.samples import Samples
+
+    for backend in (("zuko",) if quick else ("zuko", "flowjax")):
+        case = {"level": "through_aspire", "backend": backend, "periodic": ["phase"]}
+        chk.count("through_aspire")
+        chk.case(None, json.dumps(case))
+        try:
+            if backend == "flowjax":
+                ns.enable_x64()
+            a = Aspire(log_likelihood=lambda s: 0.0, log_prior=lambda s: 0.0, dims=2, parameters=["phase", "amp"],
+                       prior_bounds={"phase": [0.0, 2 * math.pi], "amp": [-1.0, 3.0]}, periodic_parameters=["phase"], flow_backend=backend,
+                       dtype="float64", **({"seed": 5} if backend == "zuko" else {}))
+            r = np.random.default_rng(12)
+            ph = np.mod(r.normal(0.0, 0.35, 400), 2 * math.pi)          # half of the mass just above 0, half just below 2 pi
+            data = np.stack([ph, r.normal(1.0, 0.4, 400).clip(-0.9, 2.9)], axis=1)
+            a.fit(Samples(x=data, parameters=["phase", "amp"]), **({"n_epochs": 3} if backend == "zuko" else {"max_epochs": 3}))
+            f = a.flow
+            with torch.no_grad():
+                x, lq = f.sample_and_log_prob(256)
+                x, lq = ns.to_np(x).reshape(-1, 2), ns.to_np(lq).reshape(-1)
+                lpx = ns.to_np(f.log_prob(f.xp.asarray(x) if backend == "flowjax" else torch.as_tensor(x, dtype=torch.float64)))
+            lo, hi = np.array([0.0, -1.0]), np.array([2 * math.pi, 3.0])
+            u = (x - lo) / (hi - lo)
+            interior = np.all((u > 4 * EPS) & (u < 1 - 4 * EPS), axis=1)
+            if np.any(x < lo) or np.any(x > hi):
+                chk.fail("draws respect the declared finite bounds", case, f"{int(np.sum((x < lo) | (x > hi)))} coordinates outside the bounds", {"backend": backend, "clause": "bounds", "level": "through_aspire"})
+            bad = interior & ~(np.abs(lq - lpx) <= 1e-7 * (1 + np.abs(lpx)))
+            if bad.any():
+                t = int(np.argmax(bad))
+                chk.fail("log-density returned with the draws = log_prob at the draws", case,
+                         f"proposal built by Aspire.init_flow with a periodic parameter: draw {t} at {x[t].tolist()} returned {lq[t]!r}, log_prob {lpx[t]!r} ({int(bad.sum())} of {len(bad)} draws differ)",
+                         {"backend": backend, "clause": "agree", "level": "through_aspire"})
+            chk.count("through_aspire_draws_near_the_seam", int(np.sum((x[:, 0] < 0.3) | (x[:, 0] > 2 * math.pi - 0.3))))
+        except Exception as e:   # noqa
+            chk.fail("flow construction", case, repr(e)[:300], {"backend": backend, "clause": "raise", "level": "through_aspire"})
+
+
 def run(chk: core.Check):
     r = np.random.default_rng(chk.seed + 3003)
     quick = chk.tier == "quick"
@@ -276,6 +320,7 @@ def run(chk: core.Check):
             check_flow(chk, c, tmp, drv)
         for i in range(n):
             check_flow(chk, gen_case(r, i), tmp, drv)
+        check_through_aspire(chk, quick)
     finally:
         shutil.rmtree(tmp, ignore_errors=True)
 
@@ -293,6 +338,9 @@ def replay(chk: core.Check, path: str) -> int:
     drv = core.LeanDriver()
     try:
         for c in cases:
+            if c.get("level") == "through_aspire":
+                check_through_aspire(chk, False)
+                continue
             c = {k: c[k] for k in ("backend", "bounded", "dtype", "d", "lo", "hi", "affine", "seed", "train")}
             check_flow(chk, c, tmp, drv)
     finally:
